@@ -8,7 +8,8 @@
 (* lexical class; lib/checks/c18.py substitutes concrete strings.          *)
 EXTENDS Registration, Json, IOUtils
 
-CONSTANTS N,        \* maximal number of top-level items of a library
+CONSTANTS UB,       \* use trees (Mode "usetree") have at most UB leaves
+          N,        \* maximal number of top-level items of a library
           ND,       \* defects are injected into libraries of at most ND items
           Mode,     \* "single" | "split" | "readd"
           Light     \* TRUE: one representative per defect class
@@ -96,7 +97,7 @@ BadNames == IF Light
 GoodNames == IF Light THEN {[n |-> "#na1", c |-> "nonascii"]}
              ELSE {[n |-> "#na1", c |-> "nonascii"], [n |-> "#na2", c |-> "nonascii"]}
 
-Variant(d, lib) == [d |-> d, lib |-> lib, macro |-> ""]
+Variant(d, lib) == [d |-> d, lib |-> lib, macro |-> "", tree |-> <<>>]
 Defects(lib) ==
   {Variant("bad-" \o b.c, RenameAt(lib, p, b.n, b.c)) : b \in BadNames, p \in NamedPos(lib)}
   \cup {Variant("nonascii", RenameAt(lib, p, g.n, g.c)) : g \in GoodNames, p \in NamedPos(lib)}
@@ -127,11 +128,13 @@ Entry(v, a) ==
   [lib      |-> v.lib,
    defect   |-> v.d,
    macro    |-> v.macro,
+   tree     |-> v.tree,
    out      |-> a.out,
    why      |-> ToSeq(a.why),
    dangling |-> ToSeq(a.dangling),
    tys      |-> IF a.out = "Err" THEN <<>> ELSE TyList(a.rt),
    probes   |-> IF a.out = "Err" THEN <<>>
+                ELSE IF v.macro = "usetree" THEN ToSeq(PositiveProbes(a.rt))
                 ELSE ToSeq(PositiveProbes(a.rt)) \o ToSeq(NegativeProbes(a.rt)) \o ToSeq(SigProbes(a.rt))]
 
 Step(v) ==
@@ -159,6 +162,75 @@ MarkNA(items) == [i \in DOMAIN items |->
                     [items[i] EXCEPT !.cls = IF items[i].name \in {"#na1", "#na2"} THEN "nonascii" ELSE @,
                                      !.items = MarkNA(@)]]
 
+(* ------------------------------------------------- duplicate registrations *)
+(* One thing registered twice: (kind) x (same / different identifier) x      *)
+(* (where the first is) x (where the second is) x (one library, either order,*)
+(* or two Add calls).  kind "type-same": one Rust type twice; "type-other":  *)
+(* two Rust types; "method": two impl blocks of T (the place of an impl      *)
+(* block does not matter: methods live in the scope of the type).            *)
+DupKinds  == {"type-same", "type-other", "fn", "const", "method"}
+DupPlaces1 == {"root", "ma", "ma.n"}
+DupPlaces2 == {"root", "ma", "mb", "ma.n", "mb.n"}
+DupCells  == [kind : DupKinds, ident : {"same", "diff"}, p1 : DupPlaces1, p2 : DupPlaces2]
+Pair(w, it) == [w |-> w, it |-> it]
+DupFirst(c) ==
+  (IF c.kind = "method" THEN <<Pair("root", Type("T", 1, "clone"))>> ELSE <<>>) \o
+  <<Pair(c.p1, CASE c.kind \in {"type-same", "type-other"} -> Type("T", 1, "clone")
+                 [] c.kind = "fn"     -> Fn("f", <<>>, 0, 21)
+                 [] c.kind = "const"  -> Const("K", 0, 23)
+                 [] c.kind = "method" -> Impl(1, <<Fn("g", <<1>>, 0, 25)>>))>>
+DupSecond(c) ==
+  LET same == c.ident = "same" IN
+  CASE c.kind = "type-same"  -> <<Pair(c.p2, Type(IF same THEN "T" ELSE "T2", 1, "copy"))>>
+    [] c.kind = "type-other" -> <<Pair(c.p2, Type(IF same THEN "T" ELSE "T2", 2, "copy")),
+                                  Pair(c.p2, Fn("mk", <<2>>, 2, 27))>>
+    [] c.kind = "fn"         -> <<Pair(c.p2, Fn(IF same THEN "f" ELSE "f2", <<>>, 0, 22))>>
+    [] c.kind = "const"      -> <<Pair(c.p2, Const(IF same THEN "K" ELSE "K2", 0, 24))>>
+    [] c.kind = "method"     -> <<Pair(c.p2, Impl(1, <<Fn(IF same THEN "g" ELSE "g2", <<1>>, 0, 26)>>))>>
+ItemsAt(pairs, w) == LET s == SelectSeq(pairs, LAMBDA p : p.w = w) IN [i \in DOMAIN s |-> s[i].it]
+ModIf(n, kids) == IF kids = <<>> THEN <<>> ELSE <<Mod(n, kids)>>
+BuildLib(pairs) ==
+  ItemsAt(pairs, "root")
+  \o ModIf("ma", ItemsAt(pairs, "ma") \o ModIf("n", ItemsAt(pairs, "ma.n")))
+  \o ModIf("mb", ItemsAt(pairs, "mb") \o ModIf("n", ItemsAt(pairs, "mb.n")))
+DupLabel(c, how) == "dup/" \o c.kind \o "/" \o c.ident \o "/" \o c.p1 \o "/" \o c.p2 \o "/" \o how
+
+(* ------------------------------------------------------------ use trees *)
+(* `use` items of library!: all trees with at most UB leaves over a world  *)
+(* of nested modules with namesakes at every level (a.d, a.b.d, a.b.q.d,   *)
+(* a.p.d ..), so that a wrongly flattened path either names nothing or     *)
+(* names an item with another tag.  harness/src/tables/c18_usetrees.rs     *)
+(* (generated by tools/gen_c18_usetrees.py from this enumeration) holds    *)
+(* the same trees as compiled library! invocations.                         *)
+NameT(x)     == [t |-> "name", x |-> x, kids |-> <<>>]
+PathT(x, k)  == [t |-> "path", x |-> x, kids |-> <<k>>]
+GroupT(ks)   == [t |-> "group", x |-> "", kids |-> ks]
+UQ == [name |-> "q", leaves |-> {"c", "d", "r"}, subs |-> {}]
+UBm == [name |-> "b", leaves |-> {"c", "d", "e"}, subs |-> {UQ}]
+UP == [name |-> "p", leaves |-> {"d", "s"}, subs |-> {}]
+UA == [name |-> "a", leaves |-> {"d", "e"}, subs |-> {UBm, UP}]
+UseWorld == <<
+  Mod("a", <<Fn("d", <<>>, 0, 2), Fn("e", <<>>, 0, 3),
+             Mod("b", <<Fn("c", <<>>, 0, 5), Fn("d", <<>>, 0, 6), Fn("e", <<>>, 0, 7),
+                        Mod("q", <<Fn("c", <<>>, 0, 9), Fn("d", <<>>, 0, 10), Fn("r", <<>>, 0, 11)>>)>>),
+             Mod("p", <<Fn("d", <<>>, 0, 12), Fn("s", <<>>, 0, 13)>>)>>),
+  Fn("z", <<>>, 0, 1)>>
+RECURSIVE TreeN(_, _), EntryN(_, _)
+(* entries of a group / what may follow `ident ::` : a name, or a path into a submodule *)
+EntryN(m, n) ==
+  (IF n = 1 THEN {NameT(x) : x \in m.leaves} \cup {NameT(s.name) : s \in m.subs} ELSE {})
+  \cup UNION {{PathT(s.name, t) : t \in TreeN(s, n)} : s \in m.subs}
+TreeN(m, n) ==
+  EntryN(m, n)
+  \cup {GroupT(<<e>>) : e \in EntryN(m, n)}
+  \cup UNION {{g \in {GroupT(<<e1, e2>>) : e1 \in EntryN(m, k), e2 \in EntryN(m, n - k)} : g.kids[1] # g.kids[2]}
+                : k \in 1..(n - 1)}
+  \cup UNION {UNION {{g \in {GroupT(<<e1, e2, e3>>) : e1 \in EntryN(m, k1), e2 \in EntryN(m, k2), e3 \in EntryN(m, n - k1 - k2)}
+                          : g.kids[1] # g.kids[2] /\ g.kids[1] # g.kids[3] /\ g.kids[2] # g.kids[3]}
+                       : k2 \in 1..(n - k1 - 1)}
+                : k1 \in 1..(n - 2)}
+UseTrees == {tr \in UNION {{PathT("a", t) : t \in TreeN(UA, n)} : n \in 1..UB} : ~HasDup(UsePaths(tr))}
+
 MCInit == Init /\ hist = <<>>
 
 First ==
@@ -169,8 +241,17 @@ First ==
         /\ \E s \in BaseIdx(N) : \E k \in 1..(Len(s) - 1) : Step(Variant("none", LibOf(SubSeq(s, 1, k))))
      \/ /\ Mode = "readd"
         /\ \E s \in BaseIdx(ND) : Step(Variant("none", LibOf(s)))
+     \/ /\ Mode = "dup1"
+        /\ \E c \in DupCells :
+              \/ Step(Variant(DupLabel(c, "one-lib"), BuildLib(DupFirst(c) \o DupSecond(c))))
+              \/ Step(Variant(DupLabel(c, "one-lib-rev"), Rev(BuildLib(DupSecond(c) \o DupFirst(c)))))
+     \/ /\ Mode = "dup2"
+        /\ \E c \in DupCells : Step(Variant("dup-first", BuildLib(DupFirst(c))))
+     \/ /\ Mode = "usetree"
+        /\ \E tr \in UseTrees :
+              Step([d |-> "usetree", lib |-> UseWorld \o <<Use(UsePaths(tr))>>, macro |-> "usetree", tree |-> <<tr>>])
      \/ /\ Mode = "macro"
-        /\ \E m \in DOMAIN MacroShapes : Step([d |-> "macro", lib |-> MarkNA(MacroShapes[m]), macro |-> m])
+        /\ \E m \in DOMAIN MacroShapes : Step([d |-> "macro", lib |-> MarkNA(MacroShapes[m]), macro |-> m, tree |-> <<>>])
 
 Second ==
   /\ Len(hist) = 1 /\ valid /\ outcome = "Ok"
@@ -180,6 +261,10 @@ Second ==
               /\ Step(Variant("split", LibOf(SubSeq(s, k + 1, Len(s)))))
      \/ /\ Mode = "readd"
         /\ \E i \in 1..K : Step(Variant("readd", <<Vocab[i]>>))
+     \/ /\ Mode = "dup2"
+        /\ \E c \in DupCells :
+              /\ hist[1].lib = BuildLib(DupFirst(c))
+              /\ Step(Variant(DupLabel(c, "two-adds"), BuildLib(DupSecond(c))))
 
 MCNext == First \/ Second
 MCSpec == MCInit /\ [][MCNext]_mcvars
@@ -187,7 +272,7 @@ MCSpec == MCInit /\ [][MCNext]_mcvars
 (* a behaviour is complete when no further Add follows *)
 Complete ==
   \/ Len(hist) = 2
-  \/ Len(hist) = 1 /\ (Mode \in {"single", "macro"} \/ ~valid \/ outcome # "Ok")
+  \/ Len(hist) = 1 /\ (Mode \in {"single", "macro", "dup1", "usetree"} \/ ~valid \/ outcome # "Ok")
 Emit == Complete => PrintT(<<"REPLAY", ToJson([mode |-> Mode, adds |-> hist])>>)
 
 Inv == TypeOK /\ (valid => ScopesClosed /\ AliasesResolve)
